@@ -131,6 +131,22 @@ def _scenarios():
         return an(entity(c, c.main == an(entity(d, d.size > 1))))
 
     @sc
+    def literal_operands_as_generators(hs, ds, cs):
+        # user data handed to a condition as a one-shot iterator (not only to let(...) as a domain)
+        c = let(LCabinet, _gen("cs", cs)); d = let(LDrawer, _gen("ds", ds))
+        q1 = an(entity(c, in_(c.name, _gen("names", ["c0", "c1"]))))
+        q2 = an(entity(d, contains(_gen("sizes", [1, 2]), d.size)))
+        q3 = an(set_of([c, d], and_(in_(d, _gen("some_ds", ds[:2])), not_(in_(c.main.size, _gen("main_sizes", [0]))))))
+        return q1, q2, q3
+
+    @sc
+    def match_values_as_generators(hs, ds, cs):
+        q1 = an(entity_matching(LCabinet, _gen("cs1", cs))(drawers=match_any(_gen("any_ds", [ds[0], ds[1]]))))
+        q2 = an(entity_matching(LCabinet, _gen("cs2", cs))(drawers=match_all(_gen("all_ds", [ds[0], ds[1]]))))
+        q3 = an(entity_matching(LCabinet, _gen("cs3", cs))(drawers=select_any(_gen("sel_ds", [ds[0]]))))
+        return q1, q2, q3
+
+    @sc
     def domainless_variables(hs, ds, cs):
         c = let(LCabinet, None); d = let(LDrawer, None)
         return an(set_of([c, d], contains(c.drawers, d)))
